@@ -1,8 +1,176 @@
+//! C15 — derived graphs (subgraph, reverse, reweight, collapse) are exactly as specified.
+use super::lifecycle::{self, Arms};
+use super::{Prop, Tier};
 use crate::core::case::*;
 use crate::core::model::{Expect, Model, Out};
 use crate::core::real::{self, Obs, G};
-use crate::core::rt::Panicked;
-use crate::runner::Ctx;
-pub fn derived_step(_i: usize, op: &Op, g: &mut G, _pre: &Obs, _exp: &Expect, _m: &Model, _cx: &mut Ctx) -> Result<Out, Panicked> {
-    real::apply(g, op)
+use crate::core::rng::Rng;
+use crate::core::rt::{self, Panicked};
+use crate::gen;
+use crate::runner::{Ctx, EnvResult};
+
+pub struct C15Prop;
+pub static C15: C15Prop = C15Prop;
+const B: u64 = real::OP_BUDGET;
+
+/// Execute a derived operation by hand so that the source can be inspected afterwards.
+/// `m` is the model AFTER the operation (what the result must be), `pre` the source before.
+pub fn derived_step(step: usize, op: &Op, g: &mut G, pre: &Obs, exp: &Expect, m: &Model, cx: &mut Ctx) -> Result<Out, Panicked> {
+    let src_specs = Specs::from_real(&g.specs);
+    let label = op.name();
+    let r: Result<Result<G, graphrs::Error>, Panicked> = match op {
+        Op::Subgraph(names) => rt::call(label, B, || Ok(g.get_subgraph(names))),
+        Op::Reverse => rt::call(label, B, || g.reverse()),
+        Op::SetWeights(w) => rt::call(label, B, || Ok(g.set_all_edge_weights(f64::from_bits(*w)))),
+        Op::ToSingle => rt::call(label, B, || g.to_single_edges()),
+        _ => unreachable!(),
+    };
+    cx.count(&format!("derived.{}", label));
+    let r = match r {
+        Ok(r) => r,
+        Err(p) => {
+            cx.fail("C15.panic", &format!("{} panicked", label), format!("step {}: {} panicked: {} [{}]; source nodes {:?} edges {:?}", step, op.to_json().to_string(), p.0, src_specs.short(), pre.nodes, pre.edges));
+            return Err(p);
+        }
+    };
+    // the source is untouched
+    match real::observe(g) {
+        Ok(after) => {
+            if &after != pre {
+                cx.fail("C15.source_changed", label, format!("step {}: {} changed its source graph: before {:?} / {:?}, after {:?} / {:?}", step, label, pre.nodes, pre.edges, after.nodes, after.edges));
+            }
+        }
+        Err(p) => return Err(p),
+    }
+    let out = match &r {
+        Ok(_) => Out::Ok,
+        Err(e) => Out::Err(real::kind(&e.kind)),
+    };
+    if !exp.accepts(out) {
+        cx.fail("C15.outcome", &format!("{} expected {:?} got {:?}", label, exp.outs, out), format!("step {}: {} on a {} graph returned {:?}, expected {:?}", step, label, src_specs.short(), out, exp.outs));
+        return Ok(out);
+    }
+    if let Ok(new) = r {
+        match real::observe(&new) {
+            Ok(o) => {
+                let specs_new = Specs::from_real(&new.specs);
+                if specs_new != m.specs {
+                    cx.fail("C15.result_specs", label, format!("step {}: the result of {} has specs [{}], expected [{}]", step, label, specs_new.short(), m.specs.short()));
+                } else if let Some(d) = lifecycle::state_mismatch(&o, m) {
+                    cx.fail("C15.result", label, format!("step {}: {} on [{}] source nodes {:?} edges {:?}: {}", step, op.to_json().to_string(), src_specs.short(), pre.nodes, lifecycle::show_edges(&pre.canon(false)), d));
+                }
+                if o.edges.len() != pre.edges.len() || o.nodes.len() != pre.nodes.len() {
+                    cx.count("probe.derived_result_smaller_than_source");
+                }
+            }
+            Err(p) => {
+                cx.fail("C15.panic", "observe result", format!("step {}: reading the result of {} panicked: {}", step, label, p.0));
+                return Err(p);
+            }
+        }
+        if matches!(op, Op::Reverse) && cx.viol.is_empty() {
+            // applying it twice restores the graph
+            match rt::call("reverse(reverse)", B, || new.reverse()) {
+                Ok(Ok(back)) => {
+                    if let Ok(ob) = real::observe(&back) {
+                        if ob.nodes != pre.nodes || ob.canon(false) != pre.canon(false) {
+                            cx.fail("C15.reverse_involution", "reverse twice", format!("step {}: reverse(reverse(g)) differs from g: {:?} / {:?} vs {:?} / {:?}", step, ob.nodes, lifecycle::show_edges(&ob.canon(false)), pre.nodes, lifecycle::show_edges(&pre.canon(false))));
+                        }
+                    }
+                }
+                Ok(Err(e)) => cx.fail("C15.reverse_involution", "reverse twice failed", format!("step {}: reversing the reversed graph failed: {:?}", step, e.kind)),
+                Err(p) => cx.fail("C15.panic", "reverse twice panicked", format!("step {}: reversing the reversed graph panicked: {}", step, p.0)),
+            }
+        }
+        if cx.viol.is_empty() {
+            // the result satisfies C02 / C03 (their oracles, reported under C15)
+            let mut sub = Ctx::default();
+            let case = Case::new("C15", 0, m.specs);
+            let mut m2 = m.clone();
+            m2.approx_weights = false;
+            if lifecycle::state_mismatch(&real::observe(&new).unwrap(), &m2).is_none() || m.approx_weights {
+                super::c02::check_views(step, &new, &m2_synced(&new, m), !m.approx_weights, &case, &mut sub);
+            }
+            if sub.viol.is_empty() {
+                super::c03::check_traversal(step, op, &new, m, &case, &mut sub);
+            }
+            for v in sub.viol {
+                cx.fail(&format!("C15.result_{}", v.oracle.replace('.', "_")), &v.sig, format!("the graph returned by {} violates {}: {}", label, v.oracle, v.detail));
+            }
+        }
+        *g = new;
+    }
+    Ok(out)
+}
+
+/// the model with weights adopted from the real result (after to_single_edges sums)
+fn m2_synced(g: &G, m: &Model) -> Model {
+    let mut m2 = m.clone();
+    if m.approx_weights {
+        if let Ok(o) = real::observe(g) {
+            m2.edges = o.edges.iter().map(|e| crate::core::model::ME { u: e.0.clone(), v: e.1.clone(), w: e.2, attr: e.3 }).collect();
+            m2.approx_weights = false;
+            m2.attrs_unspecified = false;
+        }
+    }
+    m2
+}
+
+impl Prop for C15Prop {
+    fn id(&self) -> &'static str {
+        "C15"
+    }
+    fn runs(&self, tier: Tier) -> u64 {
+        match tier {
+            Tier::Quick => 100_000,
+            Tier::Thorough => 2_000_000,
+        }
+    }
+    fn gen(&self, seed: u64, idx: u64, _tier: Tier) -> Case {
+        let mut rng = Rng::new(seed, "config");
+        let specs = Specs::from_index(idx as usize % 96);
+        let mut case = Case::new("C15", seed, specs);
+        let o = gen::HistOpts { specs, max_ops: 24, regime: gen::regime_any(&mut rng, true), derived: true, restart: true, names_min: 3, names_max: 6, dup_bias: 35 };
+        let mut wr = Rng::new(seed, "workload");
+        case.ops = gen::gen_history(&mut wr, &o);
+        if !case.ops.iter().any(|o| o.is_derived()) {
+            // every run exercises at least one derived operation
+            let names = case.universe();
+            let op = match rng.below(4) {
+                0 => Op::Subgraph(names.iter().filter(|_| rng.chance(1, 2)).cloned().collect()),
+                1 => Op::Reverse,
+                2 => Op::SetWeights(wbits(2.5)),
+                _ => Op::ToSingle,
+            };
+            case.ops.push(op);
+        }
+        case.envs = gen::keyings(seed, 2).into_iter().map(|k| Env { keying: k, pool: 1, sched: 0 }).collect();
+        case
+    }
+    fn run_env(&self, case: &Case, _env: &Env, cx: &mut Ctx) {
+        // C01's oracles stay armed so that the history continuing on a derived graph is checked too,
+        // but only C15's own findings are C15's to report: C01 violations before the first derived op are dropped
+        let arms = Arms { c15: true, c01: true, ..Default::default() };
+        lifecycle::drive(case, cx, &arms);
+        let first_derived = case.ops.iter().position(|o| o.is_derived()).unwrap_or(usize::MAX);
+        let _ = first_derived;
+        for v in cx.viol.iter_mut() {
+            if v.oracle.starts_with("C01.") {
+                v.oracle = format!("C15.continued_{}", v.oracle.replace('.', "_"));
+            }
+        }
+        let derived_ok = cx.counters.iter().filter(|(k, _)| k.starts_with("derived.")).map(|(_, v)| *v).sum::<u64>();
+        if derived_ok > 0 {
+            cx.nt.push(crate::core::rng::mix(case.specs.index() as u64, lifecycle::ops_hash(&case.ops)));
+        }
+    }
+    fn cross(&self, _case: &Case, results: &[EnvResult], cx: &mut Ctx) {
+        let _ = (results, cx);
+    }
+    fn rule(&self) -> String {
+        "lifecycle histories over all 96 specs in which get_subgraph / reverse / set_all_edge_weights / to_single_edges are applied at random points (source = a graph produced by duplicate policies, re-added nodes, restarts) and the history continues on the result; each derived op: outcome (WrongMethod for the wrong kind), result vs the model's definition (nodes in original order with attributes, exact edge multiset, summed weights at 1e-9), result specs, source graph unchanged, reverse twice = identity, C02/C03 oracles on the result, C01 oracles on the continued history; 2 hash keyings. distinct_nontrivial = distinct (specs, history) with >= 1 derived operation executed".into()
+    }
+    fn assumptions(&self) -> Vec<String> {
+        vec!["edge attributes of to_single_edges results are not specified and not compared".into(), "summed weights compared at 1e-9 relative (then adopted by the model)".into()]
+    }
 }
